@@ -4,6 +4,7 @@ import (
 	"encoding/json"
 	"fmt"
 	"reflect"
+	"strings"
 
 	"github.com/nyaruka/goflow/envs"
 )
@@ -134,6 +135,81 @@ func String(x XValue) string {
 		return "nil"
 	}
 	return x.String()
+}
+
+// MaxRenderSize is the size of the biggest value that is converted to text or to JSON, measured as the number of values
+// it is made of, plus the bytes of its texts and property names and the digits of its numbers, plus for each value the
+// number of arrays and objects that it is nested in. An array or object can hold the same value many times over, e.g.
+// array(x, x) where x is itself such an array, so the size of what is written isn't bounded by the size of the expression
+// that built the value, or by the memory that the value takes. Nor is the depth: (x) => array(x) can be applied as many
+// times as anonymous functions can be called, and every level puts together the text of all the levels below it.
+const MaxRenderSize = 1000000
+
+// CheckRenderSize checks that converting the given value to text (or to JSON, which like comparing it with another value
+// also looks at the properties of objects that have a default) stays within the above limit, and itself takes time
+// bounded by that limit
+func CheckRenderSize(x XValue, asJSON bool) *XError {
+	budget := MaxRenderSize
+	if !SpendRenderSize(x, asJSON, &budget) {
+		return NewXErrorf("value is too large to be converted to text")
+	}
+	return nil
+}
+
+// CheckFormatSize is like CheckRenderSize for the pretty text representation, which puts nested values on lines of
+// their own, indented by their depth
+func CheckFormatSize(x XValue) *XError {
+	budget := MaxRenderSize
+	if !spendSize(x, false, 2, 0, &budget) {
+		return NewXErrorf("value is too large to be converted to text")
+	}
+	return nil
+}
+
+// SpendRenderSize takes the size of the given value off the given budget, and returns whether the budget lasted. The
+// walk itself stops when the budget runs out. It is for functions which collect values, so that what they collect can
+// be limited as they go.
+func SpendRenderSize(x XValue, asJSON bool, budget *int) bool {
+	return spendSize(x, asJSON, 0, 0, budget)
+}
+
+func spendSize(x XValue, asJSON bool, indent int, depth int, budget *int) bool {
+	*budget -= 1 + (1+indent)*depth
+
+	if !IsNil(x) {
+		switch typed := x.(type) {
+		case *XText:
+			*budget -= len(typed.Native())
+			if indent > 0 && depth > 0 {
+				*budget -= strings.Count(typed.Native(), "\n") * indent * depth // every line is indented
+			}
+		case *XNumber:
+			exp := int(typed.Native().Exponent())
+			*budget -= typed.Native().Coefficient().BitLen()/3 + max(exp, -exp)
+		case *XArray:
+			for _, v := range typed.values() {
+				if *budget < 0 || !spendSize(v, asJSON, indent, depth+1, budget) {
+					return false
+				}
+			}
+		case *XObject:
+			// an object with a default is rendered as that default, but is marshaled to JSON like any other
+			if typed.hasDefault() {
+				if !spendSize(typed.Default(), asJSON, indent, depth, budget) {
+					return false
+				}
+			}
+			if !typed.hasDefault() || asJSON {
+				for p, v := range typed.properties() {
+					*budget -= len(p)
+					if *budget < 0 || !spendSize(v, asJSON, indent, depth+1, budget) {
+						return false
+					}
+				}
+			}
+		}
+	}
+	return *budget >= 0
 }
 
 // IsNil returns whether the given value is nil... because of golang's love of autoboxing nil pointers into non-nil
